@@ -78,6 +78,12 @@ fn scenarios(thorough: bool) -> Vec<Scn> {
             }
         }
     }
+    // stalled objects while unrelated traffic (new FDT instances, new objects) keeps the session busy
+    for &scale in &scales {
+        for &max_err in &[0usize, 16] {
+            v.push(Scn { session_alive: true, kind: "stalled_under_fdt_updates", cache: Some(64 << 10), max_err, timeout_ms: Some(20), scale, fec: 0 });
+        }
+    }
     v
 }
 
@@ -261,6 +267,44 @@ fn child(args: &[String]) -> ! {
                     let _ = rx.push(&ep, &pk, now);
                     pushes += 1;
                     observe(&rx, &mut p);
+                }
+                live_marks.push((pushes, alloc::live() - baseline));
+            }
+            // every quarter of the object timeout: a new complete FDT instance and a new object that stalls
+            // (2 of its 3 symbols never arrive), then FDT updates only; cleanup() after every round.
+            // Objects stalled for longer than the timeout must go although the session stays busy.
+            "stalled_under_fdt_updates" => {
+                let t_ms = s.timeout_ms.unwrap();
+                let period = Duration::from_millis(t_ms / 4);
+                let rounds = 40 * s.scale.min(4);
+                let fti = Fti { fec: 0, l: 3000, e: 1000, b: 8, ..Default::default() };
+                let mut max_held = 0usize;
+                let mut held_series = vec![];
+                for r in 0..rounds + 24 {
+                    let with_object = r < rounds;
+                    let xml = format!("<?xml version=\"1.0\"?><FDT-Instance xmlns=\"urn:IETF:metadata:2005:FLUTE:FDT\" Expires=\"{}\"><File TOI=\"{}\" Content-Location=\"file:///m/s{}\" Content-Length=\"3000\" Transfer-Length=\"3000\"/></FDT-Instance>", expires_in(3600), 1000 + r, r);
+                    for b in wrap_fdt(xml.as_bytes(), 1, 100 + r as u32, 1400, None, true) {
+                        let _ = rx.push(&ep, &b, now);
+                        pushes += 1;
+                    }
+                    if with_object {
+                        let pk = obj_pkt(1, 1000 + r as u128, 0, Some(&fti), 0, 0, 0, &payload, false);
+                        let _ = rx.push(&ep, &pk, now);
+                        pushes += 1;
+                    }
+                    std::thread::sleep(period);
+                    rx.cleanup(now);
+                    let held: usize = rx.verif_stats().iter().map(|x| x.objects.len()).sum();
+                    max_held = max_held.max(held);
+                    held_series.push(held);
+                    observe(&rx, &mut p);
+                    if r + 1 == rounds + 24 && held > 0 {
+                        add("stalled_objects_kept_by_unrelated_traffic", format!("{} stalled object(s) still held after {} ms of FDT-only updates (object_timeout {} ms): every new FDT instance keeps them alive", held, 24 * t_ms / 4, t_ms), json!({"held_per_round": held_series.clone()}));
+                    }
+                }
+                // at most timeout/period (+ scheduling slack) objects can be younger than the timeout
+                if max_held > 14 {
+                    add("stalled_objects_kept_by_unrelated_traffic", format!("{} stalled objects held at the same time with one new object every {} ms and object_timeout {} ms (at most 4-5 can be younger than the timeout; 14 allowed)", max_held, t_ms / 4, t_ms), json!({"held_per_round": held_series}));
                 }
                 live_marks.push((pushes, alloc::live() - baseline));
             }
